@@ -74,6 +74,8 @@ def gen_case(rng, keys, thorough):
     curve = rng.choice([b'ed', b'ed', b'sp', b'p2', b'BL'])
     key = rng.choice(keys[curve])
     n = rng.choice([1, 1, 1, 2, 2, 3, 4, 5, 8, rng.randrange(1, 9)])
+    if rng.random() < 0.07:   # long batches: per-content roundings add up (any batch size is in the property)
+        n = rng.choice([12, 16, 20, 33, 50])
     mode = rng.choice(['fill', 'autofill', 'autofill'])
     k = rng.random()
     hard_gas = 1_040_000 if k < 0.7 else rng.choice([1_040_000 // 2, 800_000, 3040, 100_000, 1_039_999, 1_040_001, 2_000_000, 5_200_000])
@@ -84,8 +86,10 @@ def gen_case(rng, keys, thorough):
     contents = []
     preset = False
     for _ in range(n):
-        kind = rng.choice(list(KINDS))
+        kind = rng.choice(list(KINDS)) if n <= 8 else rng.choice(['transaction', 'transaction', 'delegation', 'reveal'])
         c = G.rand_content(rng, kind, unset=True)
+        if n > 8 and kind == 'transaction':
+            c.pop('parameters', None)
         if kind == 'transaction' and rng.random() < 0.5:
             c['amount'] = str(rng.choice([0, 1, 127, 128, 10 ** 6, 2 ** 63 - 1]))
         if rng.random() < 0.06:  # limits preset by the user: outside the property, inside the correspondence
@@ -235,7 +239,7 @@ def run(ctx: lib.Ctx) -> None:
             bls_signed += 1
         cases.append(c)
     # the witnesses of the findings file are replayed first (they must still fail: they document the class)
-    witness_cases = finding_witnesses(keys)
+    witness_cases = finding_witnesses(keys) + boundary_cases(keys, rng) + residue_cases(keys)[::3]
 
     coq_cases, meta = [], []
     reported = 0
@@ -308,6 +312,43 @@ def run(ctx: lib.Ctx) -> None:
 KIND_IDX = list(KINDS)
 
 
+def plain_case(keys, n, milligas_list, curve=b'ed', mode='autofill', node_counter=0):
+    return dict(curve=curve, key=keys[curve][0], n=n, mode=mode, hard_gas=1_040_000, hard_storage=60000, node_counter=node_counter, pending=0,
+                contents=[dict(TRANSFER) for _ in range(n)], preset=False,
+                sims=[{'operation_result': {'status': 'applied', 'consumed_milligas': str(m)}} for m in milligas_list])
+
+
+def boundary_cases(keys, rng):
+    """Single-content and 2-batch autofill cases whose chosen fee lands on the zarith byte-length boundaries 2^14 and 2^21
+    (found by bisection on the simulated consumption through the real autofill), swept over 31 consecutive gas values =
+    every residue mod 10 on both sides of the boundary."""
+    out = []
+    for n in (1, 2):
+        for target in (16384, 2097152):
+            lo, hi = 0, 1 << 26                       # gas units of content 0
+            while lo < hi:
+                mid = (lo + hi) // 2
+                o, _ = run_impl(plain_case(keys, n, [mid * 1000] + [100_000] * (n - 1)), rng)
+                if o is None:
+                    return out
+                if o['fee'] >= target:
+                    hi = mid
+                else:
+                    lo = mid + 1
+            for g in range(max(0, lo - 15), lo + 16):
+                out.append(plain_case(keys, n, [g * 1000] + [100_000] * (n - 1)))
+    return out
+
+
+def residue_cases(keys):
+    """batches of 1..50 plain transfers whose per-content gas limits take every residue mod 10"""
+    out = []
+    for n in (1, 2, 3, 5, 8, 12, 16, 20, 30, 50):
+        for r in range(10):
+            out.append(plain_case(keys, n, [(160 + r) * 1000 + (1 if r % 3 == 0 else 0)] * n))
+    return out
+
+
 def check_abstraction(ctx, meta):
     """The harness maps a filled content to (kind, destination-is-KT, rest).  Cross-check that mapping against the operation
     codec of C06: Ops_proofs.fees_abstract (about which C24_size_is_forged_size is proved) computed by Coq on the same content."""
@@ -342,6 +383,10 @@ Definition abs_eqb (a b : N * bool * N * N) : bool := let '(a1, a2, a3, a4) := a
 def search_failing(ctx, case, rng, keys):
     """Around a disagreeing case: single content / autofill batches with a 64-byte-signature key, default node
     constants — the domain on which the theorems promise coverage."""
+    for c in residue_cases(keys) + boundary_cases(keys, rng):
+        out, err = run_impl(c, rng)
+        if out is not None and not out['covers']:
+            return c, out
     for attempt in range(60):
         c = gen_case(rng, keys, False)
         c['curve'] = rng.choice([b'ed', b'sp', b'p2'])
